@@ -87,6 +87,59 @@ def _worker(job):
                 "errors": [], "covers": [], "axioms": [], "replays": [], "wall_s": time.time() - t0, "stats": {}, "functions": []}
 
 
+def _blank_result(hname, why_unsupported=None, fatal=None):
+    return {"name": hname, "fatal": fatal, "obligations": [], "paths": 0, "unsupported": [why_unsupported] if why_unsupported else [],
+            "errors": [], "covers": [], "axioms": [], "replays": [], "wall_s": 0.0, "stats": {}, "functions": []}
+
+
+def _run_jobs(job_list, jobs, cap_s):
+    """One OS process per harness, with a wall-clock watchdog: z3's string solver occasionally ignores its timeout on a
+    feasibility probe (observed: one harness of C16 spinning for 35 min in 1 run out of 5).  A harness that exceeds the
+    cap is killed and run again once (the hang is not deterministic); exceeding it twice is reported as undecided."""
+    import pickle
+    tmpd = os.path.join(ROOT, "replays", "_jobs")
+    os.makedirs(tmpd, exist_ok=True)
+    pending = list(enumerate(job_list))
+    running = {}
+    attempts = {}
+    results = [None] * len(job_list)
+    env = dict(os.environ)
+    while pending or running:
+        while pending and len(running) < jobs:
+            i, job = pending.pop(0)
+            outp = os.path.join(tmpd, "job-%d-%d.pkl" % (os.getpid(), i))
+            if os.path.exists(outp):
+                os.remove(outp)
+            pr = subprocess.Popen([sys.executable, "-m", "pyvc.cli", "--job", json.dumps(list(job)), "--job-out", outp],
+                                  cwd=ROOT, env=env, stdout=subprocess.DEVNULL, stderr=subprocess.DEVNULL)
+            running[i] = (pr, time.time(), outp, job)
+        time.sleep(0.3)
+        for i in list(running):
+            pr, t0, outp, job = running[i]
+            rc = pr.poll()
+            if rc is not None:
+                del running[i]
+                try:
+                    with open(outp, "rb") as f:
+                        results[i] = pickle.load(f)
+                except Exception:
+                    results[i] = _blank_result(job[1], fatal="harness process exited with code %s without a result" % rc)
+                try:
+                    os.remove(outp)
+                except OSError:
+                    pass
+            elif time.time() - t0 > cap_s:
+                pr.kill()
+                pr.wait()
+                del running[i]
+                attempts[i] = attempts.get(i, 0) + 1
+                if attempts[i] < 2:
+                    pending.append((i, job))
+                else:
+                    results[i] = _blank_result(job[1], why_unsupported="harness exceeded the wall-clock cap of %d s twice (solver not honouring its timeout)" % cap_s)
+    return results
+
+
 def _git(repo, *args):
     try:
         return subprocess.run(["git", "-C", repo] + list(args), capture_output=True, text=True, timeout=20).stdout.strip()
@@ -113,7 +166,17 @@ def main(argv=None):
     ap.add_argument("--write-baseline", action="store_true", help="record the obligations discharged on this (unchanged) tree")
     ap.add_argument("--jobs", type=int, default=int(os.environ.get("VERIF_JOBS", "12")))
     ap.add_argument("-v", "--verbose", action="store_true")
+    ap.add_argument("--job", default=None, help="(internal) run one harness: JSON [prop, harness, repo, tier, seed]")
+    ap.add_argument("--job-out", default=None, help="(internal) where the pickled result of --job goes")
     args = ap.parse_args(argv)
+    if args.job:
+        import pickle
+        job = tuple(json.loads(args.job))
+        out = _worker(job)
+        with open(args.job_out + ".tmp", "wb") as f:
+            pickle.dump(out, f)
+        os.replace(args.job_out + ".tmp", args.job_out)
+        return 0
     os.makedirs(os.path.join(ROOT, "evidence"), exist_ok=True)
     os.makedirs(os.path.join(ROOT, "replays"), exist_ok=True)
     if args.setup:
@@ -182,9 +245,7 @@ def run_check(prop, tier, repo, seed, only, jobs, verbose, write_baseline=False)
         for j in job_list:
             results.append(_worker(j))
     else:
-        ctxm = mp.get_context("spawn")
-        with ctxm.Pool(min(jobs, len(job_list)), maxtasksperchild=1) as pool:
-            results = pool.map(_worker, job_list, chunksize=1)
+        results = _run_jobs(job_list, min(jobs, len(job_list)), 600 if tier == "quick" else 3600)
 
     kf = load_known_findings()
     open_kf = [e for e in kf.get("open", []) if e.get("property") == prop]
